@@ -824,6 +824,7 @@ type rerr struct {
 
 type run struct {
 	Opts     int    `json:"opts"` // bit i = option i (set, while, tlc, gr, lbg, rec)
+	Legacy   int    `json:"legacy,omitempty"` // 1 + legacy flag bits (AllowSet, AllowGlobalReassign, AllowRecursion, LoadBindsGlobally): run through starlark.ExecFile
 	Errs     []rerr `json:"errs"`
 	Accepted bool   `json:"accepted"`
 	Effects  int    `json:"effects"`
@@ -839,8 +840,9 @@ func optsOf(bits int) (*syntax.FileOptions, [6]bool) {
 	return &syntax.FileOptions{Set: o[0], While: o[1], TopLevelControl: o[2], GlobalReassign: o[3], LoadBindsGlobally: o[4], Recursion: o[5]}, o
 }
 
-func execute(src string, bits int) (res run) {
+func execute(src string, bits int, legacy int) (res run) {
 	res.Opts = bits
+	res.Legacy = legacy
 	res.Errs = []rerr{}
 	opts, _ := optsOf(bits)
 	effects := 0
@@ -860,7 +862,20 @@ func execute(src string, bits int) (res run) {
 		}
 		res.Effects = effects
 	}()
-	_, err := starlark.ExecFileOptions(opts, thread, "p.star", src, pre)
+	var err error
+	if legacy > 0 {
+		// the legacy entry point reads the resolve.Allow* package variables (set and restored around the run;
+		// this harness is single-threaded)
+		lb := legacy - 1
+		s0, g0, r0, l0 := resolve.AllowSet, resolve.AllowGlobalReassign, resolve.AllowRecursion, resolve.LoadBindsGlobally
+		resolve.AllowSet, resolve.AllowGlobalReassign, resolve.AllowRecursion, resolve.LoadBindsGlobally = lb&1 != 0, lb&2 != 0, lb&4 != 0, lb&8 != 0
+		defer func() {
+			resolve.AllowSet, resolve.AllowGlobalReassign, resolve.AllowRecursion, resolve.LoadBindsGlobally = s0, g0, r0, l0
+		}()
+		_, err = starlark.ExecFile(thread, "p.star", src, pre)
+	} else {
+		_, err = starlark.ExecFileOptions(opts, thread, "p.star", src, pre)
+	}
 	if err == nil {
 		res.Accepted = true
 		return
@@ -954,8 +969,34 @@ func resolveMain(argv []string) {
 				vecs = append(vecs, r.Intn(64))
 			}
 		}
+		// the legacy entry point under every combination of the four legacy flags; the documented
+		// mapping: Set = AllowSet; While = TopLevelControl = GlobalReassign = AllowGlobalReassign;
+		// Recursion = AllowRecursion; LoadBindsGlobally = LoadBindsGlobally
+		for lb := 0; lb < 16; lb++ {
+			vecs = append(vecs, 1000+lb)
+		}
 		for _, b := range vecs {
-			res := execute(pr.Src, b)
+			legacy := 0
+			label := fmt.Sprintf("opts=%06b", b)
+			if b >= 1000 {
+				lb := b - 1000
+				legacy = lb + 1
+				b = 0
+				if lb&1 != 0 {
+					b |= 1 << oSet
+				}
+				if lb&2 != 0 {
+					b |= 1<<oWhile | 1<<oTLC | 1<<oGR
+				}
+				if lb&4 != 0 {
+					b |= 1 << oRec
+				}
+				if lb&8 != 0 {
+					b |= 1 << oLBG
+				}
+				label = fmt.Sprintf("legacy ExecFile with AllowSet=%v AllowGlobalReassign=%v AllowRecursion=%v LoadBindsGlobally=%v (documented as opts=%06b)", lb&1 != 0, lb&2 != 0, lb&4 != 0, lb&8 != 0, b)
+			}
+			res := execute(pr.Src, b, legacy)
 			total++
 			_, o := optsOf(b)
 			// expectation from the language rules
@@ -981,26 +1022,26 @@ func resolveMain(argv []string) {
 				}
 				switch {
 				case res.Other != "":
-					out.Problems = append(out.Problems, fmt.Sprintf("opts=%06b: %s", b, res.Other))
+					out.Problems = append(out.Problems, fmt.Sprintf("%s: %s", label, res.Other))
 				case len(wantL) > 0 && res.Accepted:
-					out.Problems = append(out.Problems, fmt.Sprintf("opts=%06b: accepted, but %v applies (effects: %d)", b, wantL, res.Effects))
+					out.Problems = append(out.Problems, fmt.Sprintf("%s: accepted, but %v applies (effects: %d)", label, wantL, res.Effects))
 				case len(wantL) == 0 && !res.Accepted:
-					out.Problems = append(out.Problems, fmt.Sprintf("opts=%06b: breaks no rule but was rejected: %v", b, res.Errs))
+					out.Problems = append(out.Problems, fmt.Sprintf("%s: breaks no rule but was rejected: %v", label, res.Errs))
 				case !same:
-					out.Problems = append(out.Problems, fmt.Sprintf("opts=%06b: errors %v, expected exactly %v", b, res.Errs, wantL))
+					out.Problems = append(out.Problems, fmt.Sprintf("%s: errors %v, expected exactly %v", label, res.Errs, wantL))
 				case len(wantL) > 0 && res.Effects != 0:
-					out.Problems = append(out.Problems, fmt.Sprintf("opts=%06b: rejected program had %d host-visible effects", b, res.Effects))
+					out.Problems = append(out.Problems, fmt.Sprintf("%s: rejected program had %d host-visible effects", label, res.Effects))
 				}
 				out.Runs = append(out.Runs, res)
 				continue
 			}
 			switch {
 			case res.Other != "":
-				out.Problems = append(out.Problems, fmt.Sprintf("opts=%06b: %s", b, res.Other))
+				out.Problems = append(out.Problems, fmt.Sprintf("%s: %s", label, res.Other))
 			case len(want) == 0 && !res.Accepted:
-				out.Problems = append(out.Problems, fmt.Sprintf("opts=%06b: breaks no rule but was rejected: %v", b, res.Errs))
+				out.Problems = append(out.Problems, fmt.Sprintf("%s: breaks no rule but was rejected: %v", label, res.Errs))
 			case len(want) > 0 && res.Accepted:
-				out.Problems = append(out.Problems, fmt.Sprintf("opts=%06b: accepted, but %v applies at %d (effects: %d)", b, want, pr.Marker, res.Effects))
+				out.Problems = append(out.Problems, fmt.Sprintf("%s: accepted, but %v applies at %d (effects: %d)", label, want, pr.Marker, res.Effects))
 			case len(want) > 0:
 				posOf := func(w string) (string, int) {
 					if strings.HasPrefix(w, "@enclosing:") {
@@ -1016,7 +1057,7 @@ func resolveMain(argv []string) {
 				}
 				w0, p0 := posOf(want[0])
 				if res.Errs[0].Rule != w0 || res.Errs[0].Pos != p0 {
-					out.Problems = append(out.Problems, fmt.Sprintf("opts=%06b: first error %v, expected %s at %d", b, res.Errs[0], w0, p0))
+					out.Problems = append(out.Problems, fmt.Sprintf("%s: first error %v, expected %s at %d", label, res.Errs[0], w0, p0))
 				}
 				got := map[string]bool{}
 				for _, e := range res.Errs {
@@ -1025,14 +1066,14 @@ func resolveMain(argv []string) {
 				for _, wr := range want {
 					wn, wp := posOf(wr)
 					if !got[fmt.Sprintf("%s@%d", wn, wp)] {
-						out.Problems = append(out.Problems, fmt.Sprintf("opts=%06b: %s not reported at %d: %v", b, wn, wp, res.Errs))
+						out.Problems = append(out.Problems, fmt.Sprintf("%s: %s not reported at %d: %v", label, wn, wp, res.Errs))
 					}
 				}
 				if len(res.Errs) != len(want) {
-					out.Problems = append(out.Problems, fmt.Sprintf("opts=%06b: errors %v, expected exactly %v at %d", b, res.Errs, want, pr.Marker))
+					out.Problems = append(out.Problems, fmt.Sprintf("%s: errors %v, expected exactly %v at %d", label, res.Errs, want, pr.Marker))
 				}
 				if res.Effects != 0 {
-					out.Problems = append(out.Problems, fmt.Sprintf("opts=%06b: rejected program had %d host-visible effects", b, res.Effects))
+					out.Problems = append(out.Problems, fmt.Sprintf("%s: rejected program had %d host-visible effects", label, res.Effects))
 				}
 			}
 			out.Runs = append(out.Runs, res)
